@@ -381,7 +381,7 @@ def linearise(tr):
     return out
 
 
-def flow_heights(nodes, pseudo_effect):
+def flow_heights(nodes, pseudo_effect, on_pseudo=None):
     """stack-height dataflow over the emitted code (like a bytecode verifier).
     returns (exit_heights, external_jumps[(label, height)], problems[str])"""
     labels = {}
@@ -428,6 +428,8 @@ def flow_heights(nodes, pseudo_effect):
         if n[0] == 'label':
             work.append((i + 1, h)); continue
         if n[0] == 'pseudo':
+            if on_pseudo is not None:
+                on_pseudo(n, h)
             dr, dx = pseudo_effect(n)
             work.append((i + 1, (h[0] + dr, h[1] + dx))); continue
         ins = parse_ins(n[1])
